@@ -4995,6 +4995,13 @@ def lib_flatnonzero(ev, a, k, n, mod):
     """numpy.flatnonzero(condition on a grid vector): the positions where it holds - as a store index the same selection as numpy.where(condition)"""
     if len(a) == 1 and isinstance(a[0], CondV):
         return WhereV(a[0])
+    x = a[0] if a else None
+    if isinstance(x, ArrV) and not x.batch and all(isinstance(x.get(kk), bool) or (is_sym(x.get(kk)) and (sp.sympify(x.get(kk)).is_number or x.get(kk) in (sp.true, sp.false)))
+                                                 for kk in itertools.product(*[range(d) for d in x.shape])):
+        # a small array of numbers / decided booleans: the flat positions of the entries that are not zero
+        keys = list(itertools.product(*[range(d) for d in x.shape]))
+        nz = [i for i, kk in enumerate(keys) if not (x.get(kk) is False or x.get(kk) == sp.false or (is_sym(x.get(kk)) and sp.sympify(x.get(kk)) == 0))]
+        return ArrV(0, (len(nz),), cells={(j,): sp.Integer(i) for j, i in enumerate(nz)})
     raise ev.err("numpy.flatnonzero of something that is not a condition on a grid vector", n, mod)
 
 
